@@ -55,9 +55,14 @@ func init() {
 		latm := run.Rule("LOCK-atomic", "every externally callable method of a mutex-containing struct takes the lock first and releases it by defer", 2).RequireControl(1)
 		ldbl := run.Rule("LOCK-double", "no path locks the same mutex twice", 2).RequireControl(1)
 		conc := run.Rule("NO-concurrency", "no goroutine, channel, sync/atomic or unsafe.Pointer conversion in library code (outside the allow-listed Keccak cast)", 400).RequireControl(1)
+		inro := run.Rule("INPUT-readonly", "no exported function of a public package writes through an input parameter (callers share keys, scalars and messages between goroutines)", 200)
 		for _, id := range c.Configs() {
 			p := c.Prog(id)
 			run.SetConfig(id)
+			if st := checkInputReadonly(p, inro, false); id == c.Configs()[0] {
+				delete(st, "discovered")
+				run.Sample(st)
+			}
 			asmWrites := map[string][]int{}
 			if len(p.Pkg("internal/field").OtherFiles)+len(p.Pkg("curve").OtherFiles)+len(p.Pkg("internal/strobe").OtherFiles) > 0 {
 				ares := easm.Lint(run, p, "ASM", nil)
